@@ -9,7 +9,7 @@ import ast
 
 from ..core.tree import AnalysisError
 from ..core.constfold import Folder
-from ..core.astutil import walk_no_nested, call_name, short, src, kwarg, resolve_local
+from ..core.astutil import walk_no_nested, call_name, short, src, kwarg, resolve_local, enclosing_conjuncts
 from ..engines.symeval import SymEvaluator, Poly, Param, SObj, _Path
 from ..engines.affine import check_affine
 from .c02 import merge_keys
@@ -19,9 +19,47 @@ BASE = "pycaption/base.py"
 
 def run(ctx, report):
     folder = ctx.memo("folder", lambda: Folder(ctx.index))
+    report.section("adjust_caption_timing effects", retime_effects, ctx, report)
     report.section("adjust_caption_timing", retime, ctx, report, folder)
     report.section("merge", merging, ctx, report)
     report.not_decided += ["maximality of merged runs", "idempotence of a second merge"]
+
+
+def retime_effects(ctx, report):
+    """shape-independent obligations: the list walked over is not changed while it is walked, and the
+    re-timed list is stored unconditionally under its language"""
+    fn = ctx.index.get_function(BASE, "CaptionSet.adjust_caption_timing")
+    report.covered(fn)
+    bad = []
+    n_loops = 0
+    for lp in walk_no_nested(fn.node):
+        if not isinstance(lp, ast.For):
+            continue
+        n_loops += 1
+        it = src(lp.iter)
+        for c in walk_no_nested(lp):
+            if isinstance(c, ast.Call) and isinstance(c.func, ast.Attribute) and src(c.func.value) == it \
+                    and c.func.attr in ("remove", "pop", "insert", "append", "extend", "clear", "sort", "reverse"):
+                bad.append({"loop_over": it, "mutation": short(c)})
+            if isinstance(c, ast.Delete) and any(it in src(t) for t in c.targets):
+                bad.append({"loop_over": it, "mutation": short(c)})
+    if n_loops == 0:
+        raise AnalysisError("adjust_caption_timing: no loop found")
+    report.check(not bad, "R-ITER-MUTATE", fn, "the caption list is not modified while it is iterated",
+                 {"loops": n_loops, "offending": bad,
+                  "why": "removing an element during iteration skips the element after it: that caption is neither "
+                         "re-timed nor filtered"} if bad else {"loops": n_loops}, "1")
+    sc = ctx.index.get_function(BASE, "CaptionSet.set_captions")
+    report.covered(sc)
+    stores = [n for n in walk_no_nested(sc.node) if isinstance(n, ast.Assign) and isinstance(n.targets[0], ast.Subscript)
+              and src(n.targets[0].value) == "self._captions"]
+    if len(stores) != 1:
+        raise AnalysisError("CaptionSet.set_captions: store into self._captions not unique")
+    guards = enclosing_conjuncts(sc, stores[0]) or []
+    ok = not guards and src(stores[0].targets[0].slice) == sc.params[1] and src(stores[0].value) == sc.params[2]
+    report.check(ok, "R-FIELD-ROUTING", (sc, stores[0]),
+                 "set_captions stores the given list under the given language, unconditionally (an empty result "
+                 "replaces the old list too)", {"statement": short(stores[0]), "only_under": guards}, "1")
 
 
 def retime(ctx, report, folder):
